@@ -201,13 +201,15 @@ def _redundant_relation(lex: lmf.Lexicon, ids: _Ids) -> _Result:
 
 def _missing_reverse_relation(lex: lmf.Lexicon, ids: _Ids) -> _Result:
     """reverse relation is missing"""
-    regular = {(s['id'], r['relType'], r['target'])
-               for s, r in _sense_relations(lex)
-               if r['target'] in ids['sense']}
-    regular.update((ss['id'], r['relType'], r['target'])
-                   for ss, r in _synset_relations(lex))
+    relations = [(s['id'], r['relType'], r['target'])
+                 for s, r in _sense_relations(lex)
+                 if r['target'] in ids['sense']]
+    relations.extend((ss['id'], r['relType'], r['target'])
+                     for ss, r in _synset_relations(lex))
+    regular = set(relations)
+    # iterate in document order so the report does not depend on set order
     return {tgt: {'type': REVERSE_RELATIONS[typ], 'target': src}
-            for src, typ, tgt in regular
+            for src, typ, tgt in relations
             if typ in REVERSE_RELATIONS
             and (tgt, REVERSE_RELATIONS[typ], src) not in regular}
 
